@@ -256,9 +256,10 @@ func (m *mergedIterator) initQueue() {
 	i := 0
 	for _, it := range m.its {
 		if it.Valid() {
+			// it.Key() is only valid until the next move of the iterator
 			m.pq = append(m.pq, &item{
 				it:    it,
-				key:   it.Key(),
+				key:   cloneKey(it.Key()),
 				index: i,
 			})
 			it.Next()
@@ -284,7 +285,7 @@ func (m *mergedIterator) HasNext() bool {
 		// if it has value, push back queue and adjust priority
 		it := item.it
 		if it.Valid() {
-			item.key = it.Key()
+			item.key = cloneKey(it.Key())
 			m.pq.Push(item)
 			m.pq.update(item)
 
@@ -310,11 +311,16 @@ type item struct {
 
 // getKey clones the key and returns it.
 func (i *item) getKey() []byte {
-	if len(i.key) == 0 {
+	return cloneKey(i.key)
+}
+
+// cloneKey returns a copy of the key.
+func cloneKey(k []byte) []byte {
+	if len(k) == 0 {
 		return nil
 	}
-	key := make([]byte, len(i.key))
-	copy(key, i.key)
+	key := make([]byte, len(k))
+	copy(key, k)
 	return key
 }
 
